@@ -138,7 +138,9 @@ def r1_spec_tables(ctx, F):
                         eq = c.short.endswith('::eq') or c.dshort.endswith('::eq')
                         out.append((b.branch(c, True) if eq else b.branch(c, False),
                                     b.branch(c, False) if eq else b.branch(c, True)))
+                        answers[(b.path, c.bb)] = eq          # the call answers true exactly when payload == state?
                 return out
+            answers = {}
 
             def polarity(b, tests, blk):
                 for (eq_e, ne_e) in tests:
@@ -167,13 +169,26 @@ def r1_spec_tables(ctx, F):
 
                 def not_edges(sws, label):
                     return [e for sw in sws for e in sw.edges_not(label)]
+
+                def shape_calls_cut(b, shape):
+                    """the same question asked with `self.0.is_none()` / `is_some()`: the edges that contradict `shape`"""
+                    out = []
+                    for c in b.calls_to('Option::is_none', 'Option::is_some'):
+                        v = noref(b.trace(resolve_arg(b, b.val(c.args[0])), ('Option::as_ref', 'Deref::deref')))
+                        if not (v.kind == 'arg' and v.key == 1 and v.fields()):
+                            continue
+                        says_none = c.is_('Option::is_none')
+                        # edge taken when the call's answer contradicts the shape
+                        wrong = (shape == 'Some') == says_none
+                        out += b.branch(c, wrong)
+                    return out
                 st_i, st_v = state_switches(inv), state_switches(ivs)
                 shapes = variant_names(st_i) or variant_names(st_v) or [None]
                 cells = [(sh, eqv) for sh in shapes for eqv in (True, False)]
                 prod_c, acc_c = {}, {}
                 for o in ops:
                     for (sh, eqv) in cells:
-                        cut = not_edges(op_sw_i, o) + (not_edges(st_i, sh) if sh else [])
+                        cut = not_edges(op_sw_i, o) + (not_edges(st_i, sh) + shape_calls_cut(inv, sh) if sh else [])
                         for (eq_e, ne_e) in t_inv:
                             cut += ne_e if eqv else eq_e
                         blocks = inv.reach([0], cut_edges=cut)
@@ -183,11 +198,15 @@ def r1_spec_tables(ctx, F):
                         # when both functions agree that it yields what the other polarity yields
                         prod_c[(o, sh, eqv)] = got
                         for r in rets:
-                            cutv = not_edges(op_sw, o) + not_edges(ret_sw, r) + (not_edges(st_v, sh) if sh else [])
+                            cutv = not_edges(op_sw, o) + not_edges(ret_sw, r) + \
+                                (not_edges(st_v, sh) + shape_calls_cut(ivs, sh) if sh else [])
                             for (eq_e, ne_e) in t_ivs:
                                 cutv += ne_e if eqv else eq_e
                             live = ivs.reach([0], cut_edges=cutv)
-                            res_ = possible_results(ivs, live)
+                            # a comparison whose result is returned (not branched on) has the assumed answer
+                            assumed = dict((bb_, (eqv if is_eq else not eqv)) for ((pth, bb_), is_eq) in answers.items()
+                                           if pth == ivs.path)
+                            res_ = possible_results(ivs, live, atoms=assumed)
                             if True in res_ or '?' in res_:
                                 acc_c.setdefault((o, sh, eqv), set()).add(r)
                 for pr in sorted(set((o, r) for (o, sh, e_) in prod_c for r in prod_c[(o, sh, e_)]) |
@@ -383,7 +402,16 @@ def r3_one_outstanding(ctx, F):
                 from_state = [v for v in vs if '.awaiting' in v.fields()]
                 if from_msg and from_state:
                     guards.append(c)
-            if not guards:
+            # ... or compared as plain integers (`request_id == *awaiting` on a u64 id is a primitive comparison)
+            from common import comparisons as _cmps
+            prim_guards = []
+            for (x_, y_, rel_, te_, fe_, bb_) in _cmps(b):
+                if rel_ not in ('eq', 'ne') or b.call_at(bb_) is not None and b.call_at(bb_) in guards:
+                    continue
+                vs_ = [noref(resolve_arg(b, x_)), noref(resolve_arg(b, y_))]
+                if any(v.kind == 'arg' and v.key == 5 for v in vs_) and any('.awaiting' in v.fields() for v in vs_):
+                    prim_guards.append(te_ if rel_ == 'eq' else fe_)
+            if not guards and not prim_guards:
                 raise AnchorMissing('%s: request-id == awaiting guards' % path)
             stores = []
             for (i, si, st) in b.assigns(lambda st: st['lhs']['p'] == ['deref'] and st['lhs']['l'] == 3):
@@ -405,14 +433,13 @@ def r3_one_outstanding(ctx, F):
             for s_ in sends:
                 role = 'send@%s' % s_.span.split(':')[-1]
                 te = []
-                for g in guards:
-                    e = b.branch(g, True)
+                for e in [b.branch(g, True) for g in guards] + prim_guards:
                     if e and b.edges_dominate(e, s_.bb):
                         te = e
                 if not te:
                     # `PutOk(id) | PutFail(id) if id == awaiting`: the guard is evaluated once per alternative;
                     # together their true edges guard the arm
-                    allt = [e for g in guards for e in b.branch(g, True)]
+                    allt = [e for g in guards for e in b.branch(g, True)] + [e for es in prim_guards for e in es]
                     if allt and b.edges_dominate(allt, s_.bb):
                         te = allt
                 ctx.check(bool(te), rule, 'guarded:' + role, b,
@@ -448,7 +475,7 @@ def r3_one_outstanding(ctx, F):
             nones = [(i, a) for (i, a) in stores if a.key[3] and a.key[3][0].kind == 'agg' and a.key[3][0].key[2] == 'None']
             ok = False
             for (i, a) in nones:
-                g_ok = any(b.branch(g, True) and b.edges_dominate(b.branch(g, True), i) for g in guards)
+                g_ok = any(e and b.edges_dominate(e, i) for e in [b.branch(g, True) for g in guards] + prim_guards)
                 no_send = not any(s_.bb in b.reach([i]) or i in b.reach([s_.bb]) for s_ in sends)
                 if g_ok and no_send:
                     ok = True
